@@ -459,7 +459,7 @@ theorem readTty_kp : KP readTty := by
 theorem createTemp_kp : KP createTemp := by unfold createTemp; spec_walk good_kp
 theorem opCreat_kp (p : Bytes) : KP (opCreat p) := by unfold opCreat; spec_walk good_kp
 theorem opWrite_kp (p b : Bytes) : KP (opWrite p b) := by unfold opWrite; spec_walk good_kp
-theorem opChmod_kp (p : Bytes) (m : Nat) : KP (opChmod p m) := by unfold opChmod; spec_walk good_kp
+theorem opChmod_kp (p : Bytes) (m : Nat) : KP (opChmod p m) := Spec.opChmod p m (fun _ => KP.doOp _) (fun _ => rfl)
 theorem opRename_kp (a b : Bytes) : KP (opRename a b) := by unfold opRename; spec_walk good_kp
 
 macro_rules | `(tactic| spec_leaf $_) => `(tactic| with_reducible first
